@@ -474,9 +474,15 @@ class VirtualFileSystem(FileSystem[str]):
     def walk_folder(self, folder: str = '') -> Iterator[File[Self]]:
         """Return all files that are 'subfolders' of the provided folder."""
         folder = self._clean_path(folder)
+        if folder == '.':
+            # normpath('') produces this, it should match everything.
+            folder = ''
+        elif not folder.endswith('/'):
+            # Only match whole folder names.
+            folder += '/'
 
-        for filename, data in self._mapping.values():
-            if filename.startswith(folder):
+        for key, (filename, data) in self._mapping.items():
+            if key.startswith(folder):
                 yield File(self, filename, filename)
 
     def _file_exists(self, name: str) -> bool:
@@ -586,6 +592,9 @@ class ZipFileSystem(FileSystem[ZipInfo]):
         """Yield files in a folder."""
         # \\ is not allowed in zips.
         folder = folder.replace('\\', '/').casefold()
+        if folder and not folder.endswith('/'):
+            # Only match whole folder names.
+            folder += '/'
         for filename, fileinfo in self._name_to_info.items():
             if filename.startswith(folder):
                 yield File(self, fileinfo.filename, fileinfo)
@@ -665,9 +674,12 @@ class VPKFileSystem(FileSystem[VPKFile]):
     def walk_folder(self, folder: str = '') -> Iterator[File[Self]]:
         """Yield files in a folder."""
         # All VPK files use forward slashes.
-        folder = folder.replace('\\', '/')
-        for file in self._name_to_file.values():
-            if file.dir.startswith(folder):
+        folder = folder.replace('\\', '/').casefold()
+        if folder and not folder.endswith('/'):
+            # Only match whole folder names.
+            folder += '/'
+        for filename, file in self._name_to_file.items():
+            if filename.startswith(folder):
                 yield File(self, file.filename, file)
 
     def open_bin(self, name: Union[str, File[Self]]) -> BinaryIO:
